@@ -63,8 +63,9 @@ def bc_objects(obj, path='o'):
     return out
 
 
-def setup(rng, cls, nmax):
-    faces, meta = gen.gen_grid(rng, cls, nmin=1, nmax=nmax)
+def setup(rng, cls, nmax, geo=None):
+    gfam, gopts = gen.geo_opts(rng, geo)
+    faces, meta = gen.gen_grid(rng, cls, nmin=1 if not geo else 2, nmax=nmax, family=gfam, opts=gopts)
     g = Geom(cls, faces)
     m = gen.build_mesh(pf, cls, faces)
     for _ in range(50):
@@ -100,7 +101,14 @@ def build_call(name, rng, m, g, spec, dirty=None):
         phi.value = vals
     elif dirty == 'bc':
         phi.BCs.right.c = np.asarray(phi.BCs.right.c) + 0.75
-    D, _ = gen.face_arrays(rng, g, 'random', positive=True)
+    elif dirty == 'zeros':
+        # coefficient fields with exactly vanishing cells (impermeable regions, empty cells): guards against 0/0 must not
+        # touch the caller's arrays
+        vals = vals.copy()
+        vals[rng.random(g.dims) < 0.4] = 0.0
+        vals[tuple(0 for _ in g.dims)] = 0.0
+        phi = pf.CellVariable(m, vals.copy(), BC)
+    D, _ = gen.face_arrays(rng, g, 'random' if dirty != 'zeros' else 'sign', positive=True)      # 'sign': exact zeros on a quarter of the faces
     u, _ = gen.face_arrays(rng, g, 'sign')
     Df, uf = gen.facevar(pf, m, D), gen.facevar(pf, m, u)
     nfull = int(np.prod(g.full_shape()))
@@ -188,9 +196,11 @@ def run_case(case):
     cls = case['cls']
     cov, bad = {}, []
     nmax = case.get('nmax', 4 if NDIM[cls] < 3 else 3)
-    faces, meta, g, m, spec = setup(rng, cls, nmax)
+    faces, meta, g, m, spec = setup(rng, cls, nmax, case.get('geo'))
+    if case.get('geo'):
+        cov['geo:' + case['geo']] = 1
     kind = case['kind']
-    key = '%s/%s/%s' % (cls, meta['n'], case.get('func', kind))
+    key = '%s/%s/%s/%s/%s' % (cls, meta['n'], case.get('func', kind), case.get('dirty'), case.get('geo'))
     sample = {'grid': gen.describe_grid(meta, faces), 'kind': kind, 'function': case.get('func')}
     with np.errstate(all='ignore'):
         if kind == 'call':
@@ -363,8 +373,13 @@ def plan(tier, seed):
                 cases.append({'cls': cls, 'kind': 'call', 'func': fn, 'seed': [seed, 15, ci, i]})
                 i += 1
                 if fn in PHI_FUNCS:
-                    for dirty in ('value', 'bc'):
+                    for dirty in ('value', 'bc', 'zeros'):
                         cases.append({'cls': cls, 'kind': 'call', 'func': fn, 'dirty': dirty, 'seed': [seed, 15, ci, i]})
+                        i += 1
+                if fn in ('diffusionTerm', 'convectionTerm', 'convectionUpwindTerm', 'divergenceTerm', 'solveMatrixPDE', 'solvePDE', 'boundaryConditionsTerm',
+                          'linearMean', 'harmonicMean', 'gradientTerm', 'cellLocations', 'faceLocations'):
+                    for geo in ('nano', 'int'):       # badly scaled systems / special geometries must not tempt a function into touching its inputs
+                        cases.append({'cls': cls, 'kind': 'call', 'func': fn, 'geo': geo, 'seed': [seed, 15, ci, i]})
                         i += 1
             for r2 in range(3):
                 cases.append({'cls': cls, 'kind': 'reuse', 'seed': [seed, 15, ci, i]})
@@ -385,7 +400,7 @@ def floors(agg, tier):
             out.append('purity_calls:%s < 9' % fn)
     if agg['cov'].get('solver_leak_probes', 0) < 9:
         out.append('solver_leak_probes < 9')
-    for k in ('input_state:clean', 'input_state:value', 'input_state:bc', 'input_alias_probes', 'history_independence_calls'):
+    for k in ('input_state:zeros', 'geo:nano', 'geo:int', 'input_state:clean', 'input_state:value', 'input_state:bc', 'input_alias_probes', 'history_independence_calls'):
         if agg['cov'].get(k, 0) < 100:
             out.append('%s < 100' % k)
     if agg['cov'].get('reuse_loops', 0) < 9:
